@@ -144,7 +144,8 @@ impl CommandParser {
                             || second == "Window"
                             || second == "WebviewWindow"
                             || second == "State"
-                            || second == "Manager";
+                            || second == "Manager"
+                            || second == "Channel";
                     } else if segments.len() == 3 && segments[1].ident == "ipc" {
                         // tauri::ipc::Request, tauri::ipc::Channel
                         let third = &segments[2].ident;
